@@ -225,6 +225,9 @@ func (tk *task) newHost(chGlobals map[string]lua.LValue, shared map[string]*lua.
 	for k, v := range chGlobals {
 		L.SetGlobal(k, v)
 	}
+	if tk.ctx != nil && tk.kind != kBlocked && tk.id%2 == 0 {
+		L.SetGlobal("REATTACH", lua.LTrue)
+	}
 	if tk.kind == kRefusal {
 		L.SetGlobal("UD", L.NewUserData())
 	}
@@ -285,6 +288,7 @@ for i = 1, k do
     C:send(v)
   end
   emit("sent", i)
+  if i == 1 and REATTACH then reattach() end -- the host gives the state a new context; the old one ends
 end
 D:send(me)
 emit("producer done")
@@ -296,6 +300,7 @@ while true do
   local ok, v = C:receive()
   if not ok then emit("closed", v) break end
   n = n + 1
+  if n == 1 and REATTACH then reattach() end -- the host gives the state a new context; the old one ends
   if type(v) == "table" then
     local c = 0 for k2, x in pairs(v) do c = c + 1 end
     if c ~= v.n then emit("handler-mismatch", c, v.n) end
